@@ -167,8 +167,19 @@ def case_s(draw) -> dict[str, Any]:
             lst.insert(draw(st.integers(0, len(lst))), (draw(st.sampled_from(DELAYS[:5])), {"t": "ack"}))
         reactions.append([[d, f] for d, f in lst])
     unsolicited = [[t, f] for t, f in draw(st.lists(st.tuples(st.integers(1, 250), frame_s(False)), max_size=4))]
-    return {"src": src, "dst": dst, "ack_timeout": draw(st.sampled_from([0.5, 1.0, 0.2])), "program": program, "reactions": reactions,
-            "unsolicited": unsolicited, "splits": draw(st.lists(st.integers(0, 200), max_size=8))}
+    slow = 0.0
+    ack_timeout = draw(st.sampled_from([0.5, 1.0, 0.2]))
+    if draw(st.integers(0, 11)) == 0:
+        # the gateway takes the request off the connection slowly (drain() suspends for a while) and acknowledges it within the
+        # acknowledgement time counted from then on - or just too late
+        slow = draw(st.sampled_from([0.3001, 0.6001]))
+        late = draw(st.integers(0, 3)) == 0
+        ticks = int(round((slow + ack_timeout * (1.3 if late else draw(st.sampled_from([0.5, 0.8, 0.95])))) / 0.01))
+        program = [["write", bytes([0x10]) + draw(st.binary(min_size=1, max_size=8))], ["read", 0.3701]]
+        reactions = [[[ticks, {"t": "ack"}]]]
+        unsolicited = []
+    return {"src": src, "dst": dst, "ack_timeout": ack_timeout, "program": program, "reactions": reactions,
+            "unsolicited": unsolicited, "splits": draw(st.lists(st.integers(0, 200), max_size=8)), "slow_drain": slow}
 
 
 def run_case(case: dict[str, Any]) -> dict[str, Any]:
@@ -202,7 +213,10 @@ def run_case(case: dict[str, Any]) -> dict[str, Any]:
             else:
                 alive_replies.append((loop.time(), b))
 
-        writer = MemWriter(on_write)
+        from vf.props.c06 import SlowWriter
+
+        writer = SlowWriter(on_write)
+        writer.drain_delay, writer.slow_min = case.get("slow_drain") or 0.0, 0
         box["writer"] = writer
         for t, fr in case["unsolicited"]:
             wire.emit(t, enc(fr, src, dst, None), {"frame": fr, "req": None, "reaction_to": None})
@@ -331,6 +345,8 @@ def check(case: dict[str, Any]) -> list[tuple[str, str]]:
         t0 = op.t0
         if op.kind == "write":
             req = bytes(op.arg)
+            # the acknowledgement time runs from the moment the request has been handed over (a slowly reading gateway delays that)
+            t0 = t0 + (case.get("slow_drain") or 0.0)
             deadline = t0 + case["ack_timeout"]
             exp = ("connerr", deadline)
             for i, (f, c) in enumerate(zip(frames, cls)):
